@@ -71,6 +71,9 @@ func genC07(t *rapid.T) C07Case {
 	if rapid.IntRange(0, 11).Draw(t, "long") == 0 {
 		// far beyond the unrolled bodies: block-copy style fast paths have their own thresholds (128, 256, 512 words)
 		n = rapid.SampledFrom([]int{127, 128, 129, 255, 256, 257, 258, 300, 511, 512, 513, 600}).Draw(t, "nlong") + rapid.IntRange(0, 3).Draw(t, "nlongoff")
+		if rapid.IntRange(0, 4).Draw(t, "nhuge") == 0 {
+			n = rapid.SampledFrom([]int{1023, 1024, 1025, 1030, 2047, 2048, 2049, 4095, 4096, 4100}).Draw(t, "nhugev") + rapid.IntRange(0, 3).Draw(t, "nhugeoff")
+		}
 	}
 	shape := func(opts ...string) {
 		c.Shape = rapid.SampledFrom(append([]string{""}, opts...)).Draw(t, "shape")
@@ -96,7 +99,7 @@ func genC07(t *rapid.T) C07Case {
 			c.Y = append([]uint64(nil), c.X...) // equal operands: borrow chains of zeros
 			c.Y[rapid.IntRange(0, n-1).Draw(t, "bump")] = genWordLT(t, "bumpw", h.Base)
 		}
-		shape("inplace", "inplace-y", "far")
+		shape("inplace", "inplace-y", "far", "guard")
 		c.Ext = rapid.SampledFrom([]int{0, 0, 1, 2, 5}).Draw(t, "ext")
 		if n > 0 && rapid.IntRange(0, 3).Draw(t, "compl") == 0 {
 			// word pairs whose 64-bit sum is exactly 2^64-1, 2^64 or 10^19-1 +- 1, fed by a carry from the word below:
@@ -152,19 +155,19 @@ func genC07(t *rapid.T) C07Case {
 			c.W = 1
 		}
 		if c.Ext == 0 && c.Shape == "" && rapid.IntRange(0, 3).Draw(t, "far") == 0 {
-			c.Shape = "far"
+			c.Shape = rapid.SampledFrom([]string{"far", "guard"}).Draw(t, "fargd")
 		}
 	case "shl10VU", "shr10VU":
 		c.X = genVec(t, "x", n)
 		c.S = uint(rapid.IntRange(0, 18).Draw(t, "s"))
-		shape("inplace", "overlap", "far")
+		shape("inplace", "overlap", "far", "guard")
 		if c.Shape == "overlap" {
-			c.Off = rapid.IntRange(1, 5).Draw(t, "off")
+			c.Off = rapid.IntRange(1, 9).Draw(t, "off")
 		}
 	case "mulAdd10VWW":
 		c.X = genVec(t, "x", n)
 		c.W, c.W2 = genWordLT(t, "y", h.Base), genWordLT(t, "r", h.Base)
-		shape("inplace", "far")
+		shape("inplace", "far", "guard")
 	case "addMul10VVW":
 		c.X, c.Y = genVec(t, "x", n), genVec(t, "z", n)
 		c.W = genWordLT(t, "y", h.Base)
@@ -172,7 +175,7 @@ func genC07(t *rapid.T) C07Case {
 		c.X = genVec(t, "x", n)
 		c.W = 1 + genWordLT(t, "y", h.Base-1)
 		c.W2 = genWordLT(t, "xn", c.W)
-		shape("inplace", "far")
+		shape("inplace", "far", "guard")
 	case "divWVW":
 		x := make([]uint64, n)
 		st := rapid.Uint64().Draw(t, "fill")
@@ -246,6 +249,23 @@ func arrange(shape string, off, ext int, x, y []uint64, up bool) (z, xs, ys []de
 		ys = append(ys, decimal.Word(h.Base/2+uint64(i)))
 	}
 	switch shape {
+	case "guard":
+		// every operand ends flush against an inaccessible page (sources) or starts right after one: a kernel
+		// that reads or writes one word beyond a vector faults instead of getting away with it
+		if gx, ok := guardedCopy(xs, true); ok {
+			xs = gx
+			if gy, ok := guardedCopy(ys, true); ok {
+				ys = gy
+			}
+			if gz, ok := guardedCopy(make([]decimal.Word, n), up); ok {
+				z = gz
+				for i := range z {
+					z[i] = 0xdeadbeefdeadbeef
+				}
+				return
+			}
+		}
+		z = make([]decimal.Word, n)
 	case "far":
 		// source and destination 4 GiB apart: their addresses agree in the low 32 bits
 		if a, b, ok := farPair(len(xs)); ok {
@@ -647,7 +667,7 @@ func TestC07Grid(t *testing.T) {
 	h.AddExtra("C07", "grid_cases_enumerated", n)
 }
 
-const ruleC07 = "kernel half: rapid-generated calls of the 12 decimal kernels and divWVW through the hook exports, within the call-site preconditions only (words < 10^19, dividend high word < divisor, shift 0..18): vector lengths 0..70 (all residues mod 4, the >=5-word copy fast paths) and, in one case of twelve, lengths around 128, 256, 512 and 600, words from {0,1,10^19-1,5*10^18,10^k,10^k-1,2^32,2^63-1,...} in runs plus uniform, low-end carry/borrow chains with a chosen terminator position, word pairs whose 64-bit sum is exactly 2^64-1 / 2^64 / 10^19-1 +- 1 above a carrying word, scalar operands from the same sets, destination fresh (poisoned), equal to x, equal to y, 4 GiB away from x inside one sparse mapping (addresses equal in their low 32 bits), or overlapping x inside one array the way dec.shl/dec.shr call it; sources longer than the destination the way decAddAt, divBasic and decKaratsubaAdd/Sub call the VV and VW kernels (extra words must be ignored and left untouched). Oracle: assembly output == portable twin output (vector and carry/borrow/remainder) and both == the big.Int definition. Enumerated completely on every run: shift 0..18 x length 0..70 x {fresh, in place, overlap 1, overlap 3} for shl/shr; length 0..70 x carry-dies-at-every-position x {fresh, in place} for add10VW/sub10VW; length x carry/borrow chain x {fresh, in place x, in place y} x {equal length, longer sources} for add10VV/sub10VV; length 0..70 x extreme scalars for mulAdd10VWW/addMul10VVW/div10VWW. Non-trivial = length >= 5, or shift != 0, or an aliased destination. Program half: see samples of kind 'program' (same public operation sequence executed by three builds: default, decimal_pure_go, decimal_pure_go+math_big_pure_go; per-step snapshots compared)."
+const ruleC07 = "kernel half: rapid-generated calls of the 12 decimal kernels and divWVW through the hook exports, within the call-site preconditions only (words < 10^19, dividend high word < divisor, shift 0..18): vector lengths 0..70 (all residues mod 4, the >=5-word copy fast paths) and, in one case of twelve, lengths around 128, 256, 512, 600, 1024, 2048 and 4096, words from {0,1,10^19-1,5*10^18,10^k,10^k-1,2^32,2^63-1,...} in runs plus uniform, low-end carry/borrow chains with a chosen terminator position, word pairs whose 64-bit sum is exactly 2^64-1 / 2^64 / 10^19-1 +- 1 above a carrying word, scalar operands from the same sets, destination fresh (poisoned), equal to x, equal to y, 4 GiB away from x inside one sparse mapping (addresses equal in their low 32 bits), with every vector flush against an inaccessible guard page (an access one word beyond a vector faults, and the fault is reported as a panic), or overlapping x inside one array the way dec.shl/dec.shr call it; sources longer than the destination the way decAddAt, divBasic and decKaratsubaAdd/Sub call the VV and VW kernels (extra words must be ignored and left untouched). Oracle: assembly output == portable twin output (vector and carry/borrow/remainder) and both == the big.Int definition. Enumerated completely on every run: shift 0..18 x length 0..70 x {fresh, in place, overlap 1, overlap 3} for shl/shr; length 0..70 x carry-dies-at-every-position x {fresh, in place} for add10VW/sub10VW; length x carry/borrow chain x {fresh, in place x, in place y} x {equal length, longer sources} for add10VV/sub10VV; length 0..70 x extreme scalars for mulAdd10VWW/addMul10VVW/div10VWW. Non-trivial = length >= 5, or shift != 0, or an aliased destination. Program half: see samples of kind 'program' (same public operation sequence executed by three builds: default, decimal_pure_go, decimal_pure_go+math_big_pure_go; per-step snapshots compared)."
 
 var propC07 = &h.Prop[C07Case]{ID: "C07", Rule: ruleC07, Gen: genC07, Check: checkC07, Matchers: map[string]func(C07Case) bool{},
 	Filter: func(path string) bool { return !strings.Contains(path, "prog-") }}
